@@ -233,6 +233,26 @@ class Engine:
             info["driver_built"] = ok2
             if not ok2 and not os.path.exists(DRV):
                 raise InfraError("driver does not build:\n" + out2[-3000:])
+        # what is proved ∩ what is run (lean/ALV/Common/Tie.lean); informative, decides nothing
+        info["proof_tie"] = None
+        if ok and os.path.exists(os.path.join(LEAN, "ALV", "Tie", self.pid + ".lean")):
+            okt, outt, _ = lake_build(["ALV.Tie." + self.pid])
+            tp = os.path.join(LEAN, ".lake", "build", "audit", self.pid + ".tie.json")
+            if okt and os.path.exists(tp):
+                tj = json.load(open(tp))
+                info["proof_tie"] = {
+                    "what": "definitions reachable from the driver entry (what the correspondence runs against /repo) "
+                            "versus definitions named by the theorem statements; computed at elaboration time by #write_tie",
+                    "driver_entry": tj.get("driver_entry"),
+                    "driver_reachable_definitions": tj.get("driver_reachable_definitions"),
+                    "definitions_in_theorem_statements_and_run": tj.get("definitions_in_theorem_statements_and_run"),
+                    "untied_theorems": tj.get("untied_theorems"),
+                    "run_but_in_no_theorem_statement": tj.get("run_but_unproved"),
+                    "tied_definitions_per_theorem": {t["name"].split(".")[-1]: [x.split(".", 1)[-1] for x in t["tied"]]
+                                                     for t in tj.get("theorems", [])},
+                }
+            else:
+                info["proof_tie"] = {"available": False, "why": outt[-300:]}
         hits = forbidden_tokens()
         if hits:
             broken.append("forbidden tokens: " + "; ".join(hits[:5]))
@@ -438,6 +458,7 @@ class Engine:
             "histograms": self.stats,
             "lake_build_s": b.get("lake_build_s"),
             "translator": b.get("regenerate"),
+            "proof_tie": b.get("proof_tie"),
             "reported_lines": self.lines,
         }
         cov.update(self.extra)
@@ -457,8 +478,17 @@ class Engine:
     # --- main ---------------------------------------------------------------------------
     def main(self):
         code = 2
+        cov = None
         try:
             broken = self.step_build()
+            if os.environ.get("VERIF_ANCHORCOV", "1") != "0":
+                try:
+                    from anchorcov import AnchorCov
+                    cov = AnchorCov(self.pid, REPO)
+                    cov.start()
+                except Exception as e:  # informative only
+                    cov = None
+                    self.extra["anchor_coverage"] = {"available": False, "why": repr(e)}
             cases = self.corpus_cases() + list(self.mod.generate(self.rng, self.tier, 1))
             if hasattr(self.mod, "extra_checks"):
                 # property-specific non-case checks (structural translators, identity facts)
@@ -487,6 +517,12 @@ class Engine:
             print("INFRA-ERROR property=%s timeout %s" % (self.pid, e))
             code = 2
         finally:
+            if cov is not None:
+                try:
+                    cov.stop()
+                    self.extra["anchor_coverage"] = cov.report()
+                except Exception as e:
+                    self.extra["anchor_coverage"] = {"available": False, "why": repr(e)}
             try:
                 self.write_evidence()
             except Exception as e:
